@@ -187,22 +187,27 @@ contract(f"{D_}:DesignBase.__init__",
          returns=NoneT(), name=f"{D_}:DesignBase.__init__#caller").applies = lambda env: True
 
 
-def _set_design_contract(geom, flow_str, flow_val):
+def _set_design_contract(geom, flow_str, flow_val, again=False):
     cls, gval = GEOMS[geom]
+    # `again`: set_design called a second time - the manager already holds a design for the same constraints object, with whatever flow specification
+    prev = dict(_design=ObjOf(f"{D_}:{cls}", V_flow=Real, flow_type=Int, geometric_constraints=ObjOf("gc"))) if again else dict(_design=NoneT())
     return contract(
         "ghedesigner.manager:GHEManager.set_design",
         dict(self=ObjOf("ghedesigner.manager:GHEManager", _geometric_constraints=ObjOf("gc", type=Const(EnumVal("DesignGeomType", geom, gval))),
                         _borehole=ObjOf("x"), pipe_type=Int, _fluid=ObjOf("x"), _pipe=ObjOf("x"), _grout=ObjOf("x"), _soil=ObjOf("x"),
-                        _simulation_parameters=ObjOf("x"), _ground_loads=OpaqueOf("list")),
+                        _simulation_parameters=ObjOf("x"), _ground_loads=OpaqueOf("list"), **prev),
              flow_rate=Real, flow_type_str=Const(flow_str), throw=Const(True)),
-        name=f"ghedesigner.manager:GHEManager.set_design#{geom}-{flow_str}",
+        name=f"ghedesigner.manager:GHEManager.set_design#{geom}-{flow_str}" + ("-again" if again else ""),
+        options=({"entry_aliases": [(lambda P: (P.self.fields["_design"], "geometric_constraints"), lambda P: P.self.fields["_geometric_constraints"])]} if again else {}),
         ensures=[("design-gets-the-requested-flow-specification", lambda E: And(E.self._design.flow_type == flow_val, E.self._design.V_flow == E.flow_rate)),
                  ("success", lambda E: E.result == 0)],
-        returns=Int)
+        assigns=writes("self._design"), returns=Int)
 
 
 SET_DESIGN = []
 for _g in GEOMS:
     for _fs, _fv in (("system", SYSTEM_FLOW), ("Borehole", BOREHOLE_FLOW)):
         SET_DESIGN.append(_set_design_contract(_g, _fs, _fv).name)
+for _g, _fs, _fv in (("NEARSQUARE", "system", SYSTEM_FLOW), ("BIZONEDRECTANGLE", "Borehole", BOREHOLE_FLOW), ("ROWWISE", "system", SYSTEM_FLOW)):
+    SET_DESIGN.append(_set_design_contract(_g, _fs, _fv, again=True).name)
 
